@@ -100,10 +100,14 @@ def run(ctx):
             highbit = [size | (1 << b) for b in (8, 16, 24, 31, 32, 33, 47, 48, 55, 56, 62, 63)] + [(size | (1 << 63)) + d for d in (-1, 1)] + [2**64 - size, 2**64 - 1 - size]
             for tl in [size, size - 1, size + 1, 0, 2**63, 2**64 - 1, 2**63 - 1, size + 2**32] + highbit:
                 ops.append(f'ib.obtain {hexs(body[:-8] + (tl % 2**64).to_bytes(8, "big"))}')
-    for pk in pks + [hexs(rbytes(rng, 32)) for _ in range(20)] + ['00' * 32, 'ff' * 32]:
+    # keys whose own bytes end with (or contain) the 00 01 02 type suffix, or part of it
+    sfx = [hexs(rbytes(rng, 29)) + '000102', hexs(rbytes(rng, 30)) + '0001', hexs(rbytes(rng, 31)) + '00', '000102' + hexs(rbytes(rng, 29)), hexs(rbytes(rng, 26)) + '000102000102', '000102' * 10 + '0001']
+    for pk in pks + [hexs(rbytes(rng, 32)) for _ in range(20)] + ['00' * 32, 'ff' * 32] + sfx:
         ops.append(f'ib.id {pk}')
     for n_ in list(range(0, 140)) + [200, 255, 256, 1000]:
         ops.append(f'sha512 {hexs(rbytes(rng, n_))}')
+    for n_ in (0, 1, 8, 50, 500):          # the hash of the file as computed from a handle something has already read n bytes from
+        ops.append(f'ib.sha512.handle {hexs(rbytes(rng, 200))} {n_}')
     ctx.both(ops)
     # the command-line path (cmd/sign-bundle integrity-block): real binary, reused / pre-existing output files
     import c20
